@@ -12,9 +12,11 @@ C20 — derived schemas fit their types, all parts together:
   result does not depend on the fuel (the build is a deterministic function of the program), and a
   type built once is found again unchanged;
 * `Theorems/C20names.lean`: one definition per fullname (`C20_names_distinct`) for every program
-  satisfying the explicit program-text predicate `NamesWf` (distinct declared names, distinct
-  field / variant identifiers, an injective dot-free instantiation hash, and the three structural
-  exclusions that the negation witnesses show to be necessary); distinct generic instantiations
+  satisfying the explicit, decidable predicate `NamesWfOn` (distinct declared names, distinct
+  field / variant identifiers, an instantiation hash that is injective and dot-free on the
+  finitely many generic-record keys the build registers — `genericRecordKeys` —, and the three
+  structural exclusions that the negation witnesses show to be necessary); the form with a
+  globally injective hash (`NamesWf`) is the corollary `C20_names_distinct_global`; distinct generic instantiations
   get distinct names; witnesses for D22, D23 (old behaviour) and for the open D24 / D26 shapes;
 * `Theorems/C20fits.lean`: every value of a type in the fragment `FitWf` (resp. `FitWfU` with the
   hypothesis that variant names select their own branch) serializes under the derived schema
